@@ -263,7 +263,50 @@ def check_bytes(ctx):
     ctx.check(n >= 6, inst, "anchor", "-", "cache_memory writers (>= 6, found %d)" % n, None)
 
 
+def check_sweep(ctx):
+    """CLOCK sweep inside one bucket: an eviction shifts the next entry into the evicted slot, so the cursor may advance only
+    past an entry that was kept (second chance); advancing after a removal skips an unreferenced entry and makes the sweep
+    evict recently referenced ones instead"""
+    from rules import roles
+    inst = "C16.sweep"
+    b = ctx.fn("ClockCache::evict_entries", inst)
+    if b is None:
+        return
+    rm = ctx.sites(b, R.call("Vec::remove"), inst, exact=1)
+    if not rm:
+        return
+    idx = roles.recv_local(b, b.nodes[rm[0]], 1)
+    ctx.check(idx is not None and len(b.defs.get(idx, [])) >= 2, inst, "anchor", b.path, "the in-bucket cursor is a local advanced in the loop", b.where(rm[0]))
+    if idx is None:
+        return
+    tr = A.tracer(b, transparent=False)
+    steps, inits = [], []
+    for d in b.defs.get(idx, []):
+        v = tr.node_value(d)
+        if v.k == "const":
+            inits.append(d)
+        else:
+            steps.append((d, v))
+    ctx.check(len(inits) == 1 and (tr.node_value(inits[0]).extra or {}).get("val") == 0, inst, "PIN", b.path, "each bucket is swept from its first entry", None)
+    def on_ref(bb, n):
+        return R.recv_expr(bb, n).has_field(None, "reference_bit")
+    bits = R.call("Atomic::load", "AtomicBool::load", "Atomic::swap", "AtomicBool::swap").filter(on_ref, "reference bit read")(b)
+    ctx.check(len(bits) == 1, inst, "anchor", b.path, "one read of the reference bit per entry (found %d)" % len(bits), None)
+    kept = A.pred_edges(b, lambda e: e.k == "call" and e.nid in bits, "true")
+    gone = A.pred_edges(b, lambda e: e.k == "call" and e.nid in bits, "false")
+    ctx.check(bool(kept) and bool(gone), inst, "anchor", b.path, "the reference bit is branched on", None)
+    for d, v in steps:
+        ok = v.k == "bin" and v.extra.startswith("Add") and any(x.k == "const" and (x.extra or {}).get("val") == 1 for x in v.a)
+        ctx.check(ok, inst, "PIN", b.path, "the cursor advances by one entry", b.where(d))
+        R.guard(ctx, inst, b, [d], kept, "the cursor advances only past an entry that was kept (its reference bit was set)")
+    R.guard(ctx, inst, b, rm, gone, "an entry is evicted only when its reference bit was clear")
+    # a kept entry loses its bit (second chance, not immunity)
+    clr = R.call("Atomic::store", "AtomicBool::store", "Atomic::swap", "AtomicBool::swap").filter(on_ref, "reference bit clear")(b)
+    ctx.check(bool(clr), inst, "PIN", b.path, "a referenced entry has its bit cleared when it is passed over", None)
+
+
 def check(ctx):
+    check_sweep(ctx)
     check_keyed(ctx)
     check_match(ctx)
     check_invalidate(ctx)
